@@ -13,13 +13,13 @@ def build(tier, seed):
         nv = 4
     src = source(cands=cands, nv=nv)
     for v1 in range(nv):
-        s1 = src.replace("v1, v2 = pick(v1, %d), pick(v2, %d)\n    k = pick(k, 16)" % (nv, nv),
-                         "assume(v1 == %d)\n    v1, v2 = %d, pick(v2, %d)\n    k = pick(k, 16)" % (v1, v1, nv))
+        s1 = src.replace("v1, v2 = pick(v1, %d), pick(v2, %d)\n    k = pick(k, 18)" % (nv, nv),
+                         "assume(v1 == %d)\n    v1, v2 = %d, pick(v2, %d)\n    k = pick(k, 18)" % (v1, v1, nv))
         obs.append({"id": "C16/crash/first%d" % v1, "module": "c16_crash%d" % v1, "source": s1, "fn": "crash",
                     "required_tags": ["survived", "no-crash"], "collect_all": True, "max_fail_sigs": 12,
                     "timeout": 900 if tier == "quick" else 6000, "per_path_timeout": 120.0,
-                    "bound": "declaration %d dies after file-system step k in 0..15 (exists, load, remove, makedirs, open-truncate, 4 writes, "
-                             "close, reload); a dying write leaves its first c bytes, c in %s; then each of %d declarations is defined in a "
+                    "bound": "declaration %d dies after file-system step k in 0..17 (exists, load, remove, makedirs, open, 4 writes, "
+                             "close, replace, reload); a dying write leaves its first c bytes, c in %s; then each of %d declarations is defined in a "
                              "fresh process" % (v1, "every position 0..229 and every 4th up to 699" if tier != "quick" else cands, nv),
                     "assertion": "the later definition succeeds and behaves like its own declaration compiled with generators off",
                     "decl_text": "variants of class Double sharing one cache file"})
@@ -33,7 +33,7 @@ def build(tier, seed):
                         "required_tags": ["survived"], "collect_all": True, "max_fail_sigs": 12,
                         "timeout": 900 if tier == "quick" else 6000, "per_path_timeout": 120.0,
                         "bound": "process under test defines declaration %d; the other process' write side (7 steps) is interleaved at %s of our "
-                                 "14 file-system operations, for each of %d other declarations; cache initially %s"
+                                 "16 file-system operations, for each of %d other declarations; cache initially %s"
                                  % (v1, "one cut point" if tier == "quick" else "two cut points", nv, "stale" if pre else "empty"),
                         "assertion": "our definition succeeds and behaves like its own declaration",
                         "decl_text": "variants of class Double sharing one cache file"})
